@@ -46,14 +46,20 @@ deriving DecidableEq
 
 /-- the `while remaining_bytes > max_frame_body_size` loop (fuel = bytes left):
     the payload pieces of the middle frames and what is left for the last frame -/
-def middle (B : Nat) (p2len : Nat) : Nat → Bytes → List Bytes × Bytes
-  | 0, rest => ([], rest)
-  | fuel + 1, rest =>
-    if encode_transfer.cond_while_0 p2len rest.length B then
+def middleLoop (B : Nat) (p2len : Nat) : Nat → Nat → Bytes → List Bytes × Bytes
+  | 0, _, rest => ([], rest)
+  | fuel + 1, remaining, rest =>
+    if encode_transfer.cond_while_0 remaining B then
       let k := encode_transfer.let_split_index_1 p2len B
-      let (cs, r) := middle B p2len fuel (rest.drop k)
+      let rest' := rest.drop k
+      -- `remaining_bytes = buf.len() + payload.len()` at the end of the loop body
+      let (cs, r) := middleLoop B p2len fuel (encode_transfer.assign_remaining_bytes_0 p2len rest'.length) rest'
       (rest.take k :: cs, r)
     else ([], rest)
+
+/-- the loop entered with `let mut remaining_bytes = buf.len() + payload.len()` -/
+def middle (B : Nat) (p2len : Nat) (fuel : Nat) (rest : Bytes) : List Bytes × Bytes :=
+  middleLoop B p2len fuel (encode_transfer.let_remaining_bytes_1 p2len rest.length) rest
 
 /-- `FrameEncoder::encode_transfer` with `max_frame_body_size = B`: the
     (performative encoding, payload piece) of every frame, in order -/
